@@ -3,7 +3,7 @@ Require Extraction.
 Require Import ExtrOcamlBasic.
 From Coq Require Import ZArith List Bool.
 From V Require Import base.Cal gen.ParseTables parse.Lex parse.Prim parse.Ymd parse.Parse parse.Build
-                      parse.ParseSpec parse.ParseSpec2 parse.FuzzyThm parse.ZoneThm parse.Local.
+                      parse.ParseSpec parse.ParseSpec2 parse.FuzzyThm parse.ZoneThm parse.Local parse.Full.
 Import ListNotations.
 Open Scope Z_scope.
 
@@ -150,7 +150,7 @@ Definition dec_template (kd df j tf k fl ofm : Z) : template :=
    0  timelex(s)                      [s..] -> [ntok; (len; chars..)..]
    1  parser.parse(s, opts)           [opts..; s..] -> outcome
    2  _parse only: the result record  [opts..; s..] -> [0] | [1; fields..]
-   3  parser.parse with a failing tz.tzlocal (Local.v)
+   3  parser.parse, full model: failing tz.tzlocal (Local.v), bad tzinfos values / TZ strings (Full.v)
    10.. C15 / C02 spec functions (see ParseSpec.v) *)
 Definition dispatch (n : Z) (args : list Z) : list Z :=
   match n with
@@ -158,11 +158,13 @@ Definition dispatch (n : Z) (args : list Z) : list Z :=
   | 1 => match take_opts args with
          | Some (o, s) => enc_outcome (parse o s)
          | None => [-1] end
-  | 3 => (* parse with the local zone that can fail: [dst_saved; naive_dst; opts..; s..] -> outcome *)
+  | 3 => (* the full model (Full.v): failing local zone, tzinfos values of an unsupported type, rejected TZ
+            strings: [dst_saved; naive_dst; nbad; bad ids..; opts..; s..] -> outcome *)
          match args with
-         | ds :: nd :: r =>
-             match take_opts r with
-             | Some (o, s) => enc_outcome (parse_lz o (mkLocalz ds (z2b nd)) s)
+         | ds :: nd :: nb :: r =>
+             let k := Z.to_nat nb in
+             match take_opts (skipn k r) with
+             | Some (o, s) => enc_outcome (parse_full o (mkLocalz ds (z2b nd)) (firstn k r) s)
              | None => [-1] end
          | _ => [-1] end
   | 2 => match take_opts args with
